@@ -101,11 +101,29 @@ def three_runs_props(prec=64):
     return r
 
 
+def torus(prec=64, nu=2, nv=3):
+    """nu x nv grid on a torus; with nu == 2 every vertex is joined to its tube neighbour by
+    two distinct edges (no pinched vertex), which DedupeEdge resolves by ADDING faces."""
+    import math
+    r = blank(prec)
+    for i in range(nu):
+        for j in range(nv):
+            a, b = 2 * math.pi * i / nu, 2 * math.pi * j / nv
+            r["vertProperties"] += [(2 + 0.7 * math.cos(a)) * math.cos(b), (2 + 0.7 * math.cos(a)) * math.sin(b), 0.7 * math.sin(a) + 0.1 * i]
+    idx = lambda i, j: (i % nu) * nv + (j % nv)
+    for i in range(nu):
+        for j in range(nv):
+            a, b, c, d = idx(i, j), idx(i + 1, j), idx(i + 1, j + 1), idx(i, j + 1)
+            r["triVerts"] += [a, b, c, a, c, d]
+    return r
+
+
 def bases(prec):
     return [("tet", tet(prec)), ("cube", cube(prec)), ("cubeprops", cube_props(prec)),
             ("tworuns", two_runs(prec)), ("tworuns_plain", two_runs(prec, False, False, False)),
             ("cube_tan", with_tangents(cube(prec))), ("tworuns_tan", with_tangents(two_runs(prec))),
-            ("threeruns_props", three_runs_props(prec)), ("props_tan", with_tangents(three_runs_props(prec)))]
+            ("threeruns_props", three_runs_props(prec)), ("props_tan", with_tangents(three_runs_props(prec))),
+            ("torus2x3", torus(prec, 2, 3)), ("torus2x4_tan", with_tangents(torus(prec, 2, 4)))]
 
 
 def fmt_num(x):
